@@ -3,6 +3,22 @@
 selected through VERIF_REPO) and record which check catches which change in seeded/detection.json.
 usage: run_seeds.py [name ...]"""
 import json, os, subprocess, sys, glob
+def run_check(cmd, cwd, env, timeout):
+    """run a check in its own process group; on timeout kill the whole group (pool workers included)"""
+    import signal
+    p = subprocess.Popen(cmd, cwd=cwd, env=env, stdout=subprocess.PIPE, stderr=subprocess.STDOUT, text=True, start_new_session=True)
+    try:
+        out, _ = p.communicate(timeout=timeout)
+    except subprocess.TimeoutExpired:
+        try:
+            os.killpg(p.pid, signal.SIGKILL)
+        except OSError:
+            pass
+        p.communicate()
+        raise
+    return subprocess.CompletedProcess(cmd, p.returncode, out, None)
+
+
 V = os.path.dirname(os.path.dirname(os.path.abspath(__file__)))
 names = sys.argv[1:] or sorted(os.path.basename(os.path.dirname(p)) for p in glob.glob(os.path.join(V, 'seeded', '*', 'meta.json')))
 detp = os.path.join(V, 'seeded', 'detection.json')
@@ -19,7 +35,7 @@ for name in names:
         props = [meta['property']] + meta.get('also_run', [])
         for prop in props:
             try:
-                p = subprocess.run(['./check', prop, '--tier', 'quick', '--no-build'], cwd=V, env=env, stdout=subprocess.PIPE, stderr=subprocess.STDOUT, text=True, timeout=6000)
+                p = run_check(['./check', prop, '--tier', 'quick', '--no-build'], V, env, 6000)
             except subprocess.TimeoutExpired:
                 det.setdefault(name, {})[prop] = dict(rc=None, detected=False, with_failing_input=False, first='the check did not finish within 6000 s')
                 print(name, prop, 'NO VERDICT (timeout)', flush=True)
